@@ -15,7 +15,7 @@ collinearity, the merged line is dashed if any part is), otherwise such boxes ar
 import re
 
 from ..common import guards, short, where
-from ..exprs import inline_calls, simplify, closure_of, is_const, is_param, mentions, strip
+from ..exprs import bool_function, inline_calls, simplify, closure_of, is_const, is_param, mentions, strip
 from ..mirlib import op_place, Expr, Program, expr_str
 
 
@@ -132,11 +132,11 @@ def style_blind_rule(run):
                 work.append(n)
     run.floor("C05.R2", "recognition_region", len(seen), 20)
 
-    def chain(p):
+    def chain(p, raw=False):
         out = [p]
         while out[-1] in par and len(out) < 8:
             out.append(par[out[-1]])
-        return " <- ".join(short(x) for x in out)
+        return out if raw else " <- ".join(short(x) for x in out)
 
     bad = 0
     for p in sorted(seen):
@@ -182,6 +182,74 @@ def style_blind_rule(run):
     if not bad:
         run.ok("C05.R2", "the %d functions that decide whether a group is a rectangle never look at the dashed flag" % len(seen), where(prog.bodies[roots[0]]),
                ", ".join(sorted(short(x) for x in seen))[:400])
+    exact_points_rule(run, seen, chain)
+
+
+QUANTISE = re.compile(r"point::Point::cell$|cell::Cell::snap|<impl f(32|64)>::(floor|ceil|round|trunc|round_ties_even)$|util::pad$")
+
+
+def exact_points_rule(run, region, chain):
+    """R3 [N]: the conversely clause ("every rect coincides with border characters along its four edges; lines that
+    merely touch are never turned into a rectangle") rests on the corner test comparing end points *exactly*: sides
+    that only come near each other inside one character cell (a stub sticking out of a corner, a ladder rung) are not a
+    corner.  In the recognition region nothing quantises a coordinate (no `Point::cell`, snapping, rounding, float->int
+    cast), and `Line::has_endpoint` - the test the corner check is made of - is `self.start == p || self.end == p`."""
+    prog = run.prog
+    bad = 0
+    seen_pairs = set()
+    for p in sorted(region):
+        b = prog.bodies[p]
+        # the quantising functions themselves (and what only they call) are reported once, at the call that enters them
+        if any(QUANTISE.search(x) for x in chain(p, raw=True)):
+            continue
+        for bid, t in prog.calls(p):
+            n = Program.callee_name(t)
+            if QUANTISE.search(n):
+                if (p, n) in seen_pairs:
+                    continue
+                seen_pairs.add((p, n))
+                bad += 1
+                run.bad("C05.R3", "recognition-quantises/%s" % short(p), where(t),
+                        "%s (%s) calls %s: end points that merely fall into the same cell would count as meeting, so sides that overhang or only touch can be closed into a rectangle" % (short(p), chain(p), short(n)))
+        for blk in b["blocks"]:
+            for st in blk["stmts"]:
+                rv = st.get("rv") or {}
+                if rv.get("k") == "cast" and str(rv.get("cast", rv.get("kind", ""))).startswith("FloatToInt"):
+                    bad += 1
+                    run.bad("C05.R3", "recognition-quantises/%s" % short(p), where(st), "%s (%s) casts a coordinate to an integer while deciding whether the group is a rectangle" % (short(p), chain(p)))
+    if not bad:
+        run.ok("C05.R3", "no coordinate is quantised in the %d functions of the recognition region" % len(region), None)
+    he = [q for q in prog.bodies if q.endswith("line::Line::has_endpoint")]
+    if len(he) != 1:
+        run.missing("C05.R3", "Line::has_endpoint")
+        return
+    used = any(Program.callee_name(t) == he[0] for q in region for _, t in prog.calls(q))
+    if not used:
+        run.bad("C05.R3", "corner-test-missing", None, "no function of the recognition region tests end points with Line::has_endpoint (the corner check of is_rect)")
+        return
+
+    def atom(c):
+        if c[0] == "call" and re.search(r"point::Point as core::cmp::PartialEq>::eq$", c[1]) and len(c[2]) == 2:
+            a, b2 = strip(c[2][0]), strip(c[2][1])
+            if b2[0] == "param" and b2[1] == 1:
+                a, b2 = b2, a
+            if a[0] == "param" and a[1] == 1 and a[2] in (("start",), ("end",)) and b2 == ("param", 2, ()):
+                return "eq_" + a[2][0]
+        return None
+    atoms, table = bool_function(prog, he[0], atom, keep=r"PartialEq>::eq$")
+    if atoms is None:
+        run.bad("C05.R3", "has-endpoint", where(prog.bodies[he[0]]), "Line::has_endpoint is not `self.start == p || self.end == p`: %s" % table)
+    elif atoms == ["eq_end", "eq_start"] and all(v == any(k) for k, v in table.items()):
+        run.ok("C05.R3", "Line::has_endpoint = (self.start == p || self.end == p), exact point equality", where(prog.bodies[he[0]]))
+    else:
+        run.bad("C05.R3", "has-endpoint", where(prog.bodies[he[0]]), "Line::has_endpoint decides on %s: %s" % (atoms, table))
+
+
+FIXTURE_EXPECT = ["recognition-quantises/"]
+
+
+def fixture(run):
+    style_blind_rule(run)
 
 
 def run(run):
